@@ -156,7 +156,7 @@ impl Prop for C13 {
         512
     }
     fn cases(&self) -> (u64, u64) {
-        (20_000, 300_000)
+        (80_000, 300_000)
     }
     fn rule(&self) -> &'static str {
         "choice bytes -> broad definition whose help/descr/header/footer texts come from a text \
